@@ -14,7 +14,7 @@ from ..runner import Outcome, Part
 
 ID = "C16"
 TITLE = "Runs are repeatable: setup never mutates the input, serial = parallel"
-TECHNIQUE = "property-based testing (Hypothesis): generated construction histories Reactor^k from one parsed input with a deep type-and-value audit of the input after every construction; generated multi-time-point problems executed by dassh.__main__ serially, in a worker pool (1-4 workers) and one time point at a time, outputs compared file by file"
+TECHNIQUE = "property-based testing (Hypothesis): generated construction histories Reactor^k from one parsed input with a deep type-and-value audit of the input after every construction; generated multi-time-point problems executed by dassh.__main__ serially, in a worker pool (1-4 workers) and one time point at a time, outputs compared file by file; construction histories with temperature-dependent coolants and lazy correlation updates, state of the input's Material objects compared before / after"
 RULE = ("construction_history: generated inputs (Fuel-/PinModel, hot-spot requests, assembly tables, multi-region) built 2-3 times "
         "from one DASSH_Input object, input audited after each construction, every model swept and compared bitwise; "
         "serial_parallel: generated problems with 1-4 time points (different user power files) run through the real "
